@@ -70,18 +70,20 @@ class C23(Prop):
     SHARD_TIMEOUT = 2400
     COQ_SHARD = 35
     LEVEL_TEXT = (
-        "Coq theorems (19, closed under the global context) over a byte-level model of the async tar reader "
-        "(TellableStreamWrapper.read, SeekableStreamReaderWrapper.seek, FileStreamReaderWrapper.read, copyfileobj/"
-        "write, header parsing incl. checksum, octal fields, ustar prefix and GNU long names, AioTarStream.next, "
-        "extract_tar_stream): outcome and destination tree depend only on the concatenation of the chunks (any two "
-        "chunkings, unbounded archive; simulation with a flat reference reader); a regular member that "
-        "extract_tar_stream completes has exactly its h_size bytes on both copy paths, for any stream; a stream that "
-        "ends inside the data or padding of any member ends in ReadError (one-member statement on the reference "
-        "reader). The pre-fix code is kept as [legacy] and refuted by vm_compute witnesses. Partial: cuts at or "
-        "inside a later header and a corrupted later header end the archive silently (as CPython's tarfile does): "
-        "stated as _refuted and listed as known findings; parse(write t) = t is not proved (only the writer's "
-        "padding/block/record arithmetic is, *_partial); PAX/sparse members, links and CPython's TarInfo.tobuf are "
-        "exercised by the correspondence/oracle only.")
+        "Coq theorems (22, closed under the global context) over a byte-level model of the async tar reader and "
+        "writer (TellableStreamWrapper.read, SeekableStreamReaderWrapper.seek, FileStreamReaderWrapper.read, "
+        "copyfileobj/write, TarInfo.frombuf incl. checksum/octal fields/ustar prefix, GNU long names, "
+        "AioTarStream.next, extract_tar_stream; TarInfo.tobuf(GNU_FORMAT), addfile, _close): (a) outcome and "
+        "destination tree depend only on the concatenation of the chunks (any two chunkings, unbounded archive); "
+        "(b) a regular member that extract_tar_stream completes has exactly its h_size bytes on both copy paths, for "
+        "any stream; a stream that ends inside the data or padding of a member ends in ReadError (one-member "
+        "statement); (c) C23_roundtrip: the reader lists exactly what the writer archived, for any number of "
+        "regular/directory/symlink/hard-link members with names and link names of any length (GNU long records), "
+        "also through any chunking, with the block-level (frombuf after _create_header) and field-level lemmas. "
+        "The pre-fix code is kept as [legacy] and refuted by vm_compute witnesses. Partial: cuts at or inside a "
+        "later header and a corrupted later header end the archive silently (as CPython's tarfile does): stated "
+        "as _refuted and listed as known findings; general prefix-stability under truncation is not proved; PAX/"
+        "sparse members and the extraction of links are exercised by the correspondence/oracle only.")
     LEVEL_NOTE = (
         "Trusted: Coq kernel + vm_compute; the hand-written model TarStream/Model.v (tied to /repo only by the "
         "correspondence run on generated archives); CPython tarfile.TarInfo.frombuf/tobuf, GNU tar, the filesystem. "
@@ -98,7 +100,7 @@ class C23(Prop):
             "dir); write: real trees archived by the async writer and read back by Python tarfile, GNU tar and the "
             "async reader. Non-trivial = chunk size < 4096 or a fault or a long name or >= 3 entries. Distinct = "
             "distinct canonical JSON. Big files (up to 3 MiB) and PAX/link cases are oracle-only.")
-    TRUSTED = ("model: TarStream/Model.v is hand-written; CPython's tarfile (frombuf is re-modelled, tobuf is not), "
+    TRUSTED = ("model: TarStream/Model.v is hand-written; CPython's tarfile (frombuf and tobuf(GNU_FORMAT) are re-modelled and tied by the correspondence), "
                "GNU tar 1.34, os/filesystem calls are not verified, only exercised",)
     ASSUMPTIONS = ("the underlying reader behaves like asyncio.StreamReader.read: at most n bytes, b'' only at EOF",
                    "numeric header fields are octal without int() leniencies; base-256 fields are outside the model",
